@@ -394,6 +394,10 @@ def _asm_far(theta, phi, amn, lmax):
     """
     asm = np.roll(uts_scsmfo.asm(amn, lmax, theta, phi),
                   -1).reshape((2,2)) * -0.5 #correction factor
+    # SCSMFO refers the perpendicular components to the opposite unit
+    # vector: off-diagonal elements change sign in our convention
+    asm[0, 1] *= -1
+    asm[1, 0] *= -1
     return asm
 
 def _integrate4pi(integrand):
